@@ -128,7 +128,7 @@ def run():
               "transparent colour, font page > 255} under chunk limits 60/100/3e6 (continuation chunks), row framing (full-width row has no terminator), decoder totality on all "
               "byte strings <= 6 over {00,01,40,80,C0} and on every truncation of a layer record, 31104 layer geometry x flag combinations; "
               "R2: the TLC case table (1555 row shapes up to width 4, 31104 geometry/flag/mode/role/colour-tag combinations - sampled by seed in the quick tier) plus seeded random "
-              "documents (1..6 layers, sizes up to 40x20 quick / 200x120 thorough, offsets -50..50, Unicode titles, palettes 1..300, font slots 0..300, SAUCE on/off) are saved by the real "
+              "documents (1..6 layers, sizes up to 40x20 quick / 200x120 thorough, offsets -50..50, Unicode titles (also beginning / ending with white space; set at creation or through set_title), palettes 1..300, font slots 0..300, SAUCE on/off) are saved by the real "
               "engine through Buffer::to_bytes('icy', lossles_output=true) and re-loaded with Buffer::from_bytes; R3: Trace_IcyDraw evaluates SaveLoadOk and DocEq(reloaded, source) "
               "field by field on the recorded projections (property layer) and compares SpecDecode(chunk payloads) with both documents (model layer, drift only). "
               "distinct_nontrivial = number of DISTINCT source documents (64-bit digest of the whole projection) that went through save + load and were compared; "
